@@ -28,7 +28,7 @@ use vharness::libwallet::slate_versions::v4::{
 };
 use vharness::libwallet::{address, PaymentProof, SlatepackAddress};
 use vharness::libwallet::{
-	Context, Error, InitTxArgs, IssueInvoiceTxArgs, OutputData, OutputStatus, Slate, SlateState,
+	BlockFees, Context, Error, InitTxArgs, IssueInvoiceTxArgs, OutputData, OutputStatus, Slate, SlateState,
 	TxLogEntryType, WalletBackend,
 };
 use vharness::prng::{seed_from_env, Prng};
@@ -1665,7 +1665,7 @@ fn oracle_accepted(
 	// ---- C11: the kernel is not on chain yet: the exported proof must not verify
 	if let Some((env, _, coq, active)) = pp {
 		if sc.pp > 0 && o.fails.is_empty() {
-			vrows.extend(verify_rows(w, env, id, coq, active, false, &[PMut::None], &tx, &mut o));
+			vrows.extend(verify_rows(w, env, id, coq, active, false, false, &[PMut::None], &tx, &mut o));
 		}
 	}
 	if feat_ok && inputs_on_chain && o.fails.is_empty() {
@@ -1686,7 +1686,47 @@ fn oracle_accepted(
 					PMut::None, PMut::Amount(1), PMut::Amount(-1), PMut::Excess, PMut::Raddr, PMut::Saddr,
 					PMut::Rsig, PMut::Ssig, PMut::SwapSigs, PMut::SwapAddrs,
 				];
-				vrows.extend(verify_rows(w, env, id, coq, active, true, &all, &tx, &mut o));
+				vrows.extend(verify_rows(w, env, id, coq, active, true, false, &all, &tx, &mut o));
+				// ---- C11: ... and once both parties have seen it confirmed, the block that carried it is
+				// replaced by a longer branch without the transaction: the proof must be refused again by both
+				// (one exchange in two; afterwards the transaction is mined again on the new branch, so that
+				// the exchanges that follow find the chain the wallets know)
+				if s.node.height() % 2 == 0 && o.fails.is_empty() {
+					refresh(s, A);
+					refresh(s, R);
+					let tip = s.node.height();
+					let mut prev = s.node.chain.get_header_by_height(tip - 1).unwrap();
+					let mut replaced = true;
+					for _ in 0..2 {
+						let bf = BlockFees { fees: 0, key_id: None, height: prev.height + 1 };
+						let cb = s.with(R2, |b, m| foreign::build_coinbase(b, m, &bf, false)).unwrap();
+						match s.node.try_build_block(&prev, &[], (cb.output, cb.kernel)) {
+							Ok(b) => {
+								let hdr = b.header.clone();
+								if s.node.process(b).is_err() {
+									replaced = false;
+									break;
+								}
+								prev = hdr;
+							}
+							Err(_) => {
+								replaced = false;
+								break;
+							}
+						}
+					}
+					let gone = !matches!(s.node.chain.get_kernel_height(&tx.kernels()[0].excess, None, None), Ok(Some(_)));
+					info["reorged"] = json!(replaced && gone);
+					if replaced && gone {
+						vrows.extend(verify_rows(w, env, id, coq, active, false, true, &[PMut::None], &tx, &mut o));
+						let _ = owner::post_tx(&client, &tx, false);
+						let again = guarded(|| s.mine_pool(R2));
+						o.check(matches!(again, Ok(Ok(1))), "the transaction could not be mined again after the reorganisation");
+						s.node.pool.lock().clear();
+						refresh(s, A);
+						refresh(s, R);
+					}
+				}
 			}
 		}
 	}
@@ -1727,6 +1767,7 @@ fn verify_rows(
 	coq: &str,
 	active: u32,
 	mined: bool,
+	after_reorg: bool,
 	pmuts: &[PMut],
 	tx: &Transaction,
 	o: &mut Oracle,
@@ -1793,6 +1834,9 @@ fn verify_rows(
 			&& q.sender_address.pub_key.verify(&msg, &q.sender_sig).is_ok();
 		let verifiers: Vec<(usize, i64)> = if *pm == PMut::None && mined {
 			vec![(A, active as i64), (R, 10), (R2, 20)]
+		} else if after_reorg {
+			// both parties have seen the payment confirmed; the block that carried it is gone
+			vec![(A, active as i64), (R, 10)]
 		} else {
 			vec![(A, active as i64)]
 		};
@@ -1821,7 +1865,7 @@ fn verify_rows(
 				fails.push("the proof exported after an honest exchange does not verify".into());
 			}
 			rows.push(json!({
-				"verify": {"pm": pm.name(), "kernel_on_chain": on_chain, "verifier": vw, "genuine": genuine},
+				"verify": {"pm": pm.name(), "kernel_on_chain": on_chain, "verifier": vw, "genuine": genuine, "after_reorg": after_reorg},
 				"coqv": format!("({}, {}, Some {}, {}%N)", coq, pm.to_coq(), on_chain, vparent),
 				"impl": imp.iter().map(|x| x.to_string()).collect::<Vec<_>>(),
 				"oracle": fails,
